@@ -17,7 +17,7 @@
 #include "soplex.h"
 #include "vx_runner.hpp"
 #include <zlib.h>
-#include <setjmp.h>
+#include <sys/prctl.h>
 #include <sys/time.h>
 #include <cmath>
 #include <cstdarg>
@@ -64,46 +64,25 @@ static NullBuf g_nullbuf;
 static std::ostream g_null(&g_nullbuf);
 
 // ---------------------------------------------------------------------------------------------------
-// CPU-time limit for one read (termination oracle): ITIMER_PROF -> siglongjmp back into the case
+// Every case runs in its own forked process (see exec_case).  Termination oracle: the read itself runs under a
+// user-CPU-time limit (ITIMER_VIRTUAL, default action = the process is killed by SIGVTALRM); the whole case runs
+// under a wall-clock alarm.  The stage the sequence is in is published in shared memory.
 // ---------------------------------------------------------------------------------------------------
-static sigjmp_buf g_jmp;
-static volatile sig_atomic_t g_armed = 0;
-static void on_prof(int)
-{
-   if(g_armed)
-   {
-      g_armed = 0;
-      siglongjmp(g_jmp, 1);
-   }
-}
+static volatile int* g_stage = nullptr;     // MAP_SHARED, written by the case process, read by the worker
+static void stage(int st) { if(g_stage) *g_stage = st; set_sub(st); }
 static void arm_cpu(double sec)
 {
    struct itimerval it;
    memset(&it, 0, sizeof it);
    it.it_value.tv_sec = (long)sec;
    it.it_value.tv_usec = (long)((sec - (long)sec) * 1e6);
-   g_armed = 1;
-   setitimer(ITIMER_PROF, &it, 0);
+   setitimer(ITIMER_VIRTUAL, &it, 0);
 }
 static void disarm_cpu()
 {
-   g_armed = 0;
    struct itimerval it;
    memset(&it, 0, sizeof it);
-   setitimer(ITIMER_PROF, &it, 0);
-}
-// file descriptors that were open before any case ran (a read abandoned by the CPU limit leaks its stream)
-static unsigned char g_fd_legit[256];
-static bool g_fd_init = false;
-static void fd_snapshot()
-{
-   if(g_fd_init) return;
-   for(int fd = 0; fd < 256; ++fd) g_fd_legit[fd] = fcntl(fd, F_GETFD) != -1;
-   g_fd_init = true;
-}
-static void fd_close_leaked()
-{
-   for(int fd = 3; fd < 256; ++fd) if(!g_fd_legit[fd] && fcntl(fd, F_GETFD) != -1) close(fd);
+   setitimer(ITIMER_VIRTUAL, &it, 0);
 }
 
 // fills the part of the stack the next calls will use with a known byte (uninitialised locals then hold it)
@@ -379,7 +358,7 @@ static void note_san(Outcome& o, int stage)
 
 template <class F> static int guarded(Outcome& o, int stage, F f)
 {
-   set_sub(stage);
+   ::stage(stage);
    int r = 0;
    try { f(); }
    catch(const SPxException& e) { r = 1; o.spxExc++; }
@@ -479,7 +458,7 @@ static void run_core(const Case& c, const Feat& ft, const char* path, const char
    NameSet* cn2 = new NameSet();
    DIdxSet* iv = new DIdxSet();
    uint64_t h = 1469598103934665603ULL;
-   set_sub(ST_SETUP);
+   stage(ST_SETUP);
    quiet(*s, 5);
    s->setIntParam(SoPlex::READMODE, c.mode ? SoPlex::READMODE_RATIONAL : SoPlex::READMODE_REAL);
    if(c.mode) s->setIntParam(SoPlex::SYNCMODE, SoPlex::SYNCMODE_AUTO);
@@ -502,8 +481,7 @@ static void run_core(const Case& c, const Feat& ft, const char* path, const char
    }
 
    // ---- the read under test ------------------------------------------------------------------------
-   set_sub(ST_READ);
-   if(sigsetjmp(g_jmp, 1) == 0)
+   stage(ST_READ);
    {
       paint_stack(fill);
       arm_cpu(c.cpu);
@@ -516,20 +494,9 @@ static void run_core(const Case& c, const Feat& ft, const char* path, const char
       disarm_cpu();
       o.readRes = r == 0 ? (ok ? 1 : 0) : (r == 1 ? 2 : 3);
    }
-   else
-   {
-      // CPU limit: the objects are abandoned (never destroyed), the stream the reader had open is closed here
-      o.readRes = 4;
-      fd_close_leaked();
-      char sig[64];
-      snprintf(sig, sizeof sig, "hang:read");
-      add_viol(o, ST_READ, sig, "reader still running after %.2f s of CPU time on a %s", c.cpu, "small input (normal reads take < 5 ms)");
-      o.digest = 4;
-      return;
-   }
    h = hi(h, o.readRes);
    if(c.fmt == SET) quiet(*s, 0);   // the settings file may have redirected nothing, but verbosity can be anything now
-   set_sub(ST_INV);
+   stage(ST_INV);
    guarded(o, ST_INV, [&]()
    {
       o.nrows = s->numRows();
@@ -630,7 +597,7 @@ static void run_core(const Case& c, const Feat& ft, const char* path, const char
          else check_final(o, *s, ST_OPT2, o.st2, true, "final solve");
       }
    }
-   set_sub(ST_TEARDOWN);
+   stage(ST_TEARDOWN);
    guarded(o, ST_TEARDOWN, [&]() { delete s; });
    delete rn; delete cn; delete rn2; delete cn2; delete iv;
    for(int i = 0; i < o.nviol; ++i) h = fnv(o.viol[i].sig, strlen(o.viol[i].sig), h);
@@ -655,23 +622,221 @@ static void write_file(const std::string& path, const std::string& bytes)
    }
    close(fd);
 }
+static std::string g_crashpath;
+static bool g_replay = false;
+static Ctx* g_ctx = nullptr;
+static const Case* g_case = nullptr;
+static Feat g_ft;
+static std::string g_cs;
+
+#ifdef VX_ASAN
+extern "C" void __asan_set_error_report_callback(void (*)(const char*));
+extern "C" const char* __asan_default_options() { return "quarantine_size_mb=8:malloc_context_size=6:detect_stack_use_after_return=0"; }
+// the case process stops at the first AddressSanitizer report: the faulting access has not been executed yet, so
+// nothing runs on corrupted memory and the signature is the one of the first error
+static void on_asan_report(const char*)
+{
+   std::string ar = take_asan_report();
+   if(ar.empty()) ar = "asan:unknown-report";
+   if(g_ctx && g_case)
+   {
+      g_ctx->violation(ar + suffix_of(*g_case, g_ft, g_stage ? *g_stage : ST_READ), g_cs, "AddressSanitizer report (the case process stops at the first report; replay prints it)");
+      g_ctx->count("cases_stopped_at_first_asan_report");
+      g_ctx->flushDelta();
+   }
+   _exit(0);
+}
+#endif
+
 static void ensure_paths(const std::string& outdir)
 {
    static pid_t owner = 0;
    if(owner == getpid()) return;
    owner = getpid();
    g_inpath = outdir + "/in-" + std::to_string(owner);
+   g_crashpath = outdir + "/crash-" + std::to_string(owner);
    g_validLP = outdir + "/valid.lp";
    g_validMPS = outdir + "/valid.mps";
-   fd_snapshot();
-   struct sigaction sa;
-   memset(&sa, 0, sizeof sa);
-   sa.sa_handler = on_prof;
-   sa.sa_flags = SA_NODEFER;
-   sigaction(SIGPROF, &sa, 0);
+   g_stage = (volatile int*)mmap(0, 4096, PROT_READ | PROT_WRITE, MAP_SHARED | MAP_ANONYMOUS, -1, 0);
+#ifdef VX_ASAN
+   // start the symbolizer once per worker; the case processes inherit its pipes instead of starting their own
+   char fn[128];
+   __sanitizer_symbolize_pc((void*)&ensure_paths, "%f", fn, sizeof fn);
+#endif
 }
 
-static uint64_t run_case(const Case& c, Ctx& ctx, const std::string& outdir)
+// ---- case process ------------------------------------------------------------------------------------
+static void case_body(const Case& c, const Feat& ft, const std::string& cs, Ctx& ctx, bool wantSample)
+{
+   std::string pfx = std::string(ft.reader) + "." + (c.mode ? "rational" : "real");
+   ctx.count("cases");
+   ctx.count("cases." + pfx);
+   if(ft.lineOver8191) ctx.count("input.line_over_8191_bytes");
+   if(ft.lineOver16383) ctx.count("input.line_over_16383_bytes");
+   if(ft.lineOver255 && (!strcmp(ft.reader, "mps") || !strcmp(ft.reader, "bas"))) ctx.count("input.mps_or_bas_line_over_255_bytes");
+   if(ft.lineOver1023 && c.fmt == SET) ctx.count("input.settings_line_over_1023_bytes");
+   if(ft.hasNul) ctx.count("input.has_nul_byte");
+   if(ft.empty) ctx.count("input.empty");
+   if(c.gz) ctx.count("input.gzip_container");
+   if(!c.names) ctx.count("input.no_name_sets_passed");
+   if(c.expValid) ctx.count("input.valid_variant_with_known_optimum");
+   if((!strcmp(ft.reader, "mps") || !strcmp(ft.reader, "bas")) && ft.noEndata) ctx.count("input.mps_or_bas_without_ENDATA_line");
+   ctx.flushDelta();     // what is known about the input survives a later death of this process
+
+   std::set<std::string> seen;
+   auto emit = [&](const Outcome & o)
+   {
+      for(int i = 0; i < o.nviol; ++i)
+      {
+         std::string sig = o.viol[i].sig + suffix_of(c, ft, o.viol[i].stage);
+         if(seen.insert(sig).second) ctx.violation(sig, cs, o.viol[i].detail);
+      }
+   };
+   auto ubsan = [&](const Outcome & o)
+   {
+      std::string ub = take_ubsan_report();
+      if(!ub.empty())
+      {
+         std::string sig = ub + suffix_of(c, ft, o.sanStage < 0 ? ST_READ : o.sanStage);
+         if(seen.insert(sig).second) ctx.violation(sig, cs, "UndefinedBehaviorSanitizer report (replay prints it)");
+      }
+   };
+   Outcome A, B;
+   run_core(c, ft, g_inpath.c_str(), g_validLP.c_str(), g_validMPS.c_str(), 0x2A, A);
+   ctx.count("reader_runs");
+   emit(A);
+   ubsan(A);
+   static const char* RES[] = {"reported_failure", "success", "spx_exception", "foreign_exception"};
+   const char* res = RES[A.readRes >= 0 && A.readRes < 4 ? A.readRes : 0];
+   ctx.count("read." + pfx + "." + res);
+   ctx.count("optimize1.status=" + std::to_string(A.st1));
+   if(A.st2 == (int)SPxSolver::OPTIMAL) ctx.count("optimize2.optimal");
+   else ctx.count("optimize2.status=" + std::to_string(A.st2));
+   if(A.readRes == 1 && (c.fmt == LP || c.fmt == MPS))
+   {
+      if(A.nrows > 0 || A.ncols > 0) ctx.count("read_success_nonempty_lp");
+      else ctx.count("read_success_empty_lp");
+      if(A.nonfinite) ctx.count("read_success_with_nonfinite_or_nan_values");
+      if(A.lowerGtUpper) ctx.count("read_success_with_lower_above_upper");
+      if(A.lhsGtRhs) ctx.count("read_success_with_row_lhs_above_rhs");
+   }
+   if(A.failNonEmpty) ctx.count("read_failure_left_nonempty_lp");
+   if(c.fmt == BAS && A.readRes == 1) ctx.count("basis_read_ok.basics=" + std::to_string(A.basics));
+   if(A.spxExc) ctx.count("spx_exceptions_escaped_some_stage");
+   // second execution: other stack fill; the outcome must not depend on it and the heap must be back where it was
+   run_core(c, ft, g_inpath.c_str(), g_validLP.c_str(), g_validMPS.c_str(), 0xAA, B);
+   ctx.count("reader_runs");
+   emit(B);
+   ubsan(B);
+   if(A.digest != B.digest)
+   {
+      char det[300];
+      snprintf(det, sizeof det, "stack fill 0x2A: read=%d dims %dx%d status %d/%d; stack fill 0xAA: read=%d dims %dx%d status %d/%d",
+               A.readRes, A.nrows, A.ncols, A.st1, A.st2, B.readRes, B.nrows, B.ncols, B.st1, B.st2);
+      ctx.violation("outcome-depends-on-uninitialised-stack" + suffix_of(c, ft, ST_COMPARE), cs, det);
+   }
+   if(B.heapDelta > 0)
+   {
+      Outcome C;
+      run_core(c, ft, g_inpath.c_str(), g_validLP.c_str(), g_validMPS.c_str(), 0x2A, C);
+      ctx.count("reader_runs");
+#ifdef VX_ASAN
+      const long LEAKMIN = 1;        // sanitizer allocator statistics are exact
+#else
+      const long LEAKMIN = 65536;    // glibc's mallinfo includes chunk overhead and cache effects
+#endif
+      if(C.heapDelta >= LEAKMIN && B.heapDelta >= LEAKMIN)
+      {
+         char det[240];
+         snprintf(det, sizeof det, "live heap grows by %ld and %ld bytes in the 2nd and 3rd execution of the same sequence (all objects destroyed in between); read result: %s", B.heapDelta, C.heapDelta, res);
+         ctx.violation("leak" + suffix_of(c, ft, ST_TEARDOWN), cs, det);
+      }
+      else ctx.count("heap_growth_not_repeated");
+   }
+   if(wantSample)
+   {
+      std::ostringstream js;
+      js << "{\"case\":" << jstr(cs.size() > 400 ? cs.substr(0, 400) + "..." : cs) << ",\"reader\":" << jstr(ft.reader) << ",\"read\":" << jstr(res)
+         << ",\"rows\":" << A.nrows << ",\"cols\":" << A.ncols << ",\"status_first_optimize\":" << A.st1 << ",\"status_final_optimize\":" << A.st2 << "}";
+      ctx.samples.push_back(js.str());
+   }
+}
+
+// ---- worker side ---------------------------------------------------------------------------------------
+// The cases of a worker run in a separate "case process" that the worker feeds through a pipe (one line per case,
+// the self-contained case string) and that acknowledges every finished case.  When the case process dies (signal,
+// CPU limit, wall limit, stop at the first AddressSanitizer report) the worker knows which case and which stage it was
+// in, records that, and starts a fresh case process for the next case.  The worker itself never executes SoPlex code.
+static const int WALL_LIMIT_S = 30;
+struct Session { pid_t pid = -1; int wfd = -1, rfd = -1; pid_t owner = 0; };
+static Session g_sess;
+
+static void child_loop(int rfd, int wfd, Ctx& ctx)
+{
+   prctl(PR_SET_PDEATHSIG, SIGKILL);
+   int cfd = open(g_crashpath.c_str(), O_RDWR | O_CREAT | O_TRUNC, 0644);
+   install_crash_handler(cfd);
+   signal(SIGVTALRM, SIG_DFL);
+   signal(SIGALRM, SIG_DFL);
+   if(!g_replay)
+   {
+      int dn = open("/dev/null", O_WRONLY);
+      if(dn >= 0) dup2(dn, 2);
+   }
+   ctx.counters.clear();          // pending counts of the worker are the worker's business
+   ctx.samples.clear();
+   ctx.flushedSamples = 0;
+   g_ctx = &ctx;
+#ifdef VX_ASAN
+   __asan_set_error_report_callback(on_asan_report);
+#endif
+   FILE* in = fdopen(rfd, "r");
+   char* line = nullptr;
+   size_t cap = 0;
+   for(;;)
+   {
+      ssize_t n = getline(&line, &cap, in);
+      if(n <= 0) _exit(0);
+      if(line[n - 1] == '\n') line[--n] = 0;
+      bool wantSample = line[0] == '1';
+      Case c = Case::parse(std::string(line + 2, n - 2));
+      std::string d = c.content();
+      g_ft = features(c, d);
+      g_case = &c;
+      g_cs = c.str();
+      alarm(WALL_LIMIT_S);
+      case_body(c, g_ft, g_cs, ctx, wantSample);
+      alarm(0);
+      ctx.flushDelta();
+      g_case = nullptr;
+      if(write(wfd, "k", 1) != 1) _exit(0);
+   }
+}
+
+static void session_start(Ctx& ctx)
+{
+   int a[2], b[2];
+   if(pipe(a) || pipe(b)) { perror("pipe"); _exit(3); }
+   if(ctx.sink) fflush(ctx.sink);
+   fflush(stdout);
+   pid_t pid = fork();
+   if(pid < 0) { perror("fork"); _exit(3); }
+   if(pid == 0)
+   {
+      close(a[1]);
+      close(b[0]);
+      child_loop(a[0], b[1], ctx);
+      _exit(0);
+   }
+   close(a[0]);
+   close(b[1]);
+   g_sess.pid = pid;
+   g_sess.wfd = a[1];
+   g_sess.rfd = b[0];
+   g_sess.owner = getpid();
+}
+
+static uint64_t exec_case(const Case& c, Ctx& ctx, const std::string& outdir)
 {
    ensure_paths(outdir);
    std::string d = c.content();
@@ -685,97 +850,79 @@ static uint64_t run_case(const Case& c, Ctx& ctx, const std::string& outdir)
    }
    write_file(g_inpath, bytes);
    std::string cs = c.str();
-   std::string pfx = std::string(ft.reader) + "." + (c.mode ? "rational" : "real");
-   ctx.count("cases");
-   ctx.count("cases." + pfx);
-   if(ft.lineOver8191) ctx.count("input.line_over_8191_bytes");
-   if(ft.lineOver16383) ctx.count("input.line_over_16383_bytes");
-   if(ft.lineOver255 && (!strcmp(ft.reader, "mps") || !strcmp(ft.reader, "bas"))) ctx.count("input.mps_or_bas_line_over_255_bytes");
-   if(ft.lineOver1023 && c.fmt == SET) ctx.count("input.settings_line_over_1023_bytes");
-   if(ft.hasNul) ctx.count("input.has_nul_byte");
-   if(ft.empty) ctx.count("input.empty");
-   if(c.gz) ctx.count("input.gzip_container");
-   if(!c.names) ctx.count("input.no_name_sets_passed");
-   if(c.expValid) ctx.count("input.valid_variant_with_known_optimum");
-
-   std::set<std::string> seen;
-   auto emit = [&](const Outcome & o)
+   static int sampled = 0;
+   bool wantSample = sampled < 2;
+   sampled++;
+   if(g_sess.owner != getpid()) g_sess = Session();     // a session inherited from the parent process is not ours
+   if(g_sess.pid < 0) session_start(ctx);
+   *g_stage = ST_SETUP;
+   std::string msg = std::string(wantSample ? "1" : "0") + " " + cs + "\n";
+   bool sent = true;
+   for(size_t off = 0; off < msg.size();)
    {
-      for(int i = 0; i < o.nviol; ++i)
-      {
-         std::string sig = o.viol[i].sig + suffix_of(c, ft, o.viol[i].stage);
-         if(seen.insert(sig).second) ctx.violation(sig, cs, o.viol[i].detail);
-      }
-   };
-   Outcome A, B;
-   run_core(c, ft, g_inpath.c_str(), g_validLP.c_str(), g_validMPS.c_str(), 0x2A, A);
-   ctx.count("reader_runs");
-   emit(A);
-   int sanStage = A.sanStage;
-   static const char* RES[] = {"reported_failure", "success", "spx_exception", "foreign_exception", "cpu_limit"};
-   ctx.count("read." + pfx + "." + RES[A.readRes >= 0 && A.readRes < 5 ? A.readRes : 0]);
-   if(A.readRes != 4)
+      ssize_t w = write(g_sess.wfd, msg.data() + off, msg.size() - off);
+      if(w <= 0) { if(errno == EINTR) continue; sent = false; break; }
+      off += w;
+   }
+   char ack = 0;
+   ssize_t r = -1;
+   if(sent) while((r = read(g_sess.rfd, &ack, 1)) < 0 && errno == EINTR) {}
+   if(r == 1) return 0;
+   // the case process died in this case
+   int st = 0;
+   while(waitpid(g_sess.pid, &st, 0) < 0 && errno == EINTR) {}
+   close(g_sess.wfd);
+   close(g_sess.rfd);
+   g_sess = Session();
+   int stg = *g_stage;
+   if(WIFEXITED(st) && WEXITSTATUS(st) == 0) return 0;      // stopped at the first AddressSanitizer report (already recorded)
+   ctx.count("case_processes_died");
+   std::string sig, detail;
+   int signo = WIFSIGNALED(st) ? WTERMSIG(st) : 0;
+   if(signo == SIGVTALRM)
    {
-      ctx.count("optimize1.status=" + std::to_string(A.st1));
-      if(A.st2 == (int)SPxSolver::OPTIMAL) ctx.count("optimize2.optimal_7.5");
-      else ctx.count("optimize2.status=" + std::to_string(A.st2));
-      if(A.readRes == 1 && (c.fmt == LP || c.fmt == MPS))
+      sig = "hang:cpu-limit";
+      char b[240];
+      snprintf(b, sizeof b, "still in stage %s after %.2f s of user CPU time for the read (normal reads of such inputs take < 5 ms)", STAGE[stg < 9 ? stg : 0], c.cpu);
+      detail = b;
+   }
+   else if(signo == SIGALRM)
+   {
+      sig = "hang:wall-limit";
+      detail = "case process still running after " + std::to_string(WALL_LIMIT_S) + " s";
+   }
+   else
+   {
+      // crash handler of the runner: "X <signo>" + frames + "XEND" in the scratch file, exit code 100 + signo
+      std::ifstream in(g_crashpath);
+      std::string line;
+      std::vector<std::string> frames;
+      int hsig = 0;
+      bool inX = false;
+      while(std::getline(in, line))
       {
-         if(A.nrows > 0 || A.ncols > 0) ctx.count("read_success_nonempty_lp");
-         else ctx.count("read_success_empty_lp");
-         if(A.nonfinite) ctx.count("read_success_with_nonfinite_or_nan_values");
-         if(A.lowerGtUpper) ctx.count("read_success_with_lower_above_upper");
-         if(A.lhsGtRhs) ctx.count("read_success_with_row_lhs_above_rhs");
+         if(line.compare(0, 2, "X\t") == 0) { hsig = atoi(line.c_str() + 2); inX = true; }
+         else if(line == "XEND") inX = false;
+         else if(inX) frames.push_back(line);
       }
-      if(A.failNonEmpty) ctx.count("read_failure_left_nonempty_lp");
-      if(c.fmt == BAS && A.readRes == 1) ctx.count("basis_read_ok.basics=" + std::to_string(A.basics));
-      if(A.spxExc) ctx.count("spx_exceptions_escaped_some_stage");
-      // second execution: other stack fill; outcome must not depend on it, heap must be back where it was
-      run_core(c, ft, g_inpath.c_str(), g_validLP.c_str(), g_validMPS.c_str(), 0xAA, B);
-      ctx.count("reader_runs");
-      emit(B);
-      if(sanStage < 0) sanStage = B.sanStage;
-      if(B.readRes != 4 && A.digest != B.digest)
+      if(hsig) signo = hsig;
+      if(signo)
       {
-         std::string sig = "outcome-depends-on-uninitialised-stack" + suffix_of(c, ft, ST_COMPARE);
-         char det[300];
-         snprintf(det, sizeof det, "stack fill 0x2A: read=%d dims %dx%d status %d/%d; stack fill 0xAA: read=%d dims %dx%d status %d/%d",
-                  A.readRes, A.nrows, A.ncols, A.st1, A.st2, B.readRes, B.nrows, B.ncols, B.st1, B.st2);
-         ctx.violation(sig, cs, det);
-      }
-      if(B.readRes != 4 && B.heapDelta > 0)
-      {
-         Outcome C;
-         run_core(c, ft, g_inpath.c_str(), g_validLP.c_str(), g_validMPS.c_str(), 0x2A, C);
-         ctx.count("reader_runs");
-#ifdef VX_ASAN
-         const long LEAKMIN = 1;        // sanitizer allocator statistics are exact
-#else
-         const long LEAKMIN = 65536;    // glibc's mallinfo includes chunk overhead and cache effects
-#endif
-         if(C.readRes != 4 && C.heapDelta >= LEAKMIN && B.heapDelta >= LEAKMIN)
+         sig = "crash:sig" + std::to_string(signo) + ":" + crash_site(frames);
+         for(size_t k = 0; k < frames.size() && k < 12; ++k)
          {
-            std::string sig = "leak" + suffix_of(c, ft, ST_TEARDOWN);
-            char det[200];
-            snprintf(det, sizeof det, "live heap grows by %ld and %ld bytes in the 2nd and 3rd execution of the same sequence (objects destroyed in between); read result %d", B.heapDelta, C.heapDelta, A.readRes);
-            ctx.violation(sig, cs, det);
+            std::string dm = demangle_frame(frames[k]);
+            if(!dm.empty()) detail += short_fn(dm) + " <- ";
          }
-         else ctx.count("heap_growth_not_repeated");
+      }
+      else
+      {
+         sig = "abnormal-exit:" + std::to_string(WIFEXITED(st) ? WEXITSTATUS(st) : -1);
+         detail = "case process ended without a result (sanitizer runtime abort or exit() inside the library)";
       }
    }
-   {
-      std::string ub = take_ubsan_report();
-      if(!ub.empty()) ctx.violation(ub + suffix_of(c, ft, sanStage < 0 ? ST_READ : sanStage), cs, "UndefinedBehaviorSanitizer report");
-   }
-   set_sub(sanStage < 0 ? ST_READ : sanStage);   // the runner attaches a pending ASan report to this stage
-   if(ctx.wantSample())
-   {
-      std::ostringstream js;
-      js << "{\"case\":" << jstr(cs.size() > 400 ? cs.substr(0, 400) + "..." : cs) << ",\"reader\":" << jstr(ft.reader) << ",\"read\":" << jstr(RES[A.readRes >= 0 && A.readRes < 5 ? A.readRes : 0])
-         << ",\"rows\":" << A.nrows << ",\"cols\":" << A.ncols << ",\"status_first_optimize\":" << A.st1 << ",\"status_final_optimize\":" << A.st2 << "}";
-      ctx.sample(js.str());
-   }
-   return A.digest;
+   ctx.violation(sig + suffix_of(c, ft, stg), cs, detail);
+   return 0;
 }
 
 // ---------------------------------------------------------------------------------------------------
@@ -903,6 +1050,7 @@ int main(int argc, char** argv)
    args.prop = "C13";
    mallopt(M_TRIM_THRESHOLD, 1 << 29);   // plain builds: keep the heap mapped between cases (no effect under the sanitizer allocator)
    mallopt(M_MMAP_THRESHOLD, 1 << 30);
+   signal(SIGPIPE, SIG_IGN);
    init_texts();
    init_alphabets();
    static std::ostream* keep = &g_null;
@@ -925,14 +1073,17 @@ int main(int argc, char** argv)
       }
       Case c = Case::parse(cs);
       c.cpu = std::max(c.cpu * 10, 5.0);   // a replayed hang must survive a ten times larger limit
+      g_replay = true;
       return replay_case([&](Ctx & cx)
       {
-         run_case(c, cx, args.outdir);
-         // the runner's replay helper has no stage information: report sanitizer findings with the full suffix here
-         std::string d = c.content();
-         Feat ft = features(c, d);
-         std::string ar = take_asan_report();
-         if(!ar.empty()) cx.violation(ar + suffix_of(c, ft, ST_READ), "", "AddressSanitizer report");
+         // the case runs in its own process here too; what it reports comes back through a sink file
+         Ctx tmp;
+         std::string sinkPath = args.outdir + "/replay-sink.txt";
+         tmp.sink = fopen(sinkPath.c_str(), "w");
+         exec_case(c, tmp, args.outdir);
+         fclose(tmp.sink);
+         tmp.sink = nullptr;
+         cx.mergeFile(sinkPath);
       });
    }
    bool thorough = args.tier == "thorough";
@@ -1461,7 +1612,7 @@ int main(int argc, char** argv)
       {
          Case cs = fp->gen(idx);
          if(cs.skip) { c.count("skipped_identity_or_thinned"); return 0; }
-         return run_case(cs, c, outdir);
+         return exec_case(cs, c, outdir);
       }, [fp](uint64_t idx, uint64_t) { return fp->gen(idx).str(); }, o,
       [fp](uint64_t idx, uint64_t sub)
       {
